@@ -141,6 +141,28 @@ func VerifC18CallCancel() {
 	n := len(c.pending)
 	c.pendingMu.Unlock()
 	symAssert(n == 0, "nothing is left pending after the call returned")
+	// whatever the cancellation interrupted, the byte stream stays framed: a notification sent
+	// afterwards arrives intact behind whole frames only
+	after, _ := NewNotification("after", []string{"é"})
+	wantAfter, _ := json.Marshal(after)
+	nerr := c.Notify(context.Background(), "after", []string{"é"})
+	symAssert(nerr == nil, "a notification can be sent after the call returned")
+	symQuiesce()
+	sink.drain()
+	peer := NewStream(&verifPipe{data: sink.data})
+	var last []byte
+	intact := true
+	for i := 0; i < 4; i++ {
+		m, _, rerr := peer.Read(context.Background())
+		if rerr != nil {
+			break
+		}
+		last, _ = json.Marshal(m)
+		if len(last) == 0 || last[0] != '{' || last[len(last)-1] != '}' {
+			intact = false
+		}
+	}
+	symAssert(intact && string(last) == string(wantAfter), "after a cancelled call the wire holds whole frames only and the next message arrives intact")
 	close(hy.gate)
 	symAssert(symQuiesce() == 0, "no goroutine is left blocked forever")
 }
